@@ -247,14 +247,18 @@ func RunCheck(prop string, opt CheckOptions) *CheckResult {
 				if fc.Lemma {
 					key = e.PkgOf[fc].Pkg.Name() + ".lemma." + fc.Name
 				}
-				if all || want[key] {
+				pkgAll := false
+				if i := strings.Index(key, "."); i > 0 && want[key[:i]+".*"] {
+					pkgAll = true
+				}
+				if all || want[key] || pkgAll {
 					fcs = append(fcs, fc)
 					found[key] = true
 				}
 			}
 		}
 		for c := range want {
-			if c != "*" && !found[c] {
+			if c != "*" && !strings.HasSuffix(c, ".*") && !found[c] {
 				reachFails = append(reachFails, reachFail{c + "/reach", "no contract block / function of that name in the current tree", nil})
 			}
 		}
